@@ -121,6 +121,13 @@ M = [
     ("C10", "outcome-on-bootstrap", "black_it/schedulers/rl/rl_scheduler.py", "            self._env._curr_best_loss = best_new_loss  # noqa: SLF001\n            return", "            self._env._curr_best_loss = best_new_loss  # noqa: SLF001\n            self._out_queue.put((self._best_param, self._best_loss))\n            return"),
     ("C10", "reference-updated-by-scheduler", "black_it/schedulers/rl/rl_scheduler.py", "        self._out_queue.put((self._best_param, self._best_loss))\n\n    def end_session", "        self._env._curr_best_loss = self._best_loss  # noqa: SLF001\n        self._out_queue.put((self._best_param, self._best_loss))\n\n    def end_session"),
     ("C10", "no-join", "black_it/schedulers/rl/rl_scheduler.py", "        cast(threading.Thread, self._agent_thread).join()\n", "        pass\n"),
+    ("C01", "halton-keep-cursor", "black_it/samplers/halton.py", "        super()._set_random_state(random_state)\n        self._reset_sequence_index()", "        super()._set_random_state(random_state)"),
+    ("C01", "rseq-keep-offset", "black_it/samplers/r_sequence.py", "        super()._set_random_state(random_state)\n        self._reset()", "        super()._set_random_state(random_state)\n        self._sequence_index = self.random_generator.integers(_MIN_SEQUENCE_START_INDEX, _MAX_SEQUENCE_START_INDEX)"),
+    ("C01", "verbose-draw", "black_it/calibrator.py", "                if self.verbose:\n                    min_dist_new_points", "                if self.verbose:\n                    self._get_random_seed()\n                    min_dist_new_points"),
+    ("C01", "seed-in-worker", "black_it/calibrator.py", "            delayed(self.model)(param, self.N, self._get_random_seed())\n", "            delayed(lambda p: self.model(p, self.N, self._get_random_seed()))(param)\n"),
+    ("C01", "reseed-only-unseeded", "black_it/schedulers/base.py", "        for sampler in self.samplers:\n            sampler.random_state = self._get_random_seed()", "        for sampler in self.samplers:\n            seed = self._get_random_seed()\n            if sampler.random_state is None:\n                sampler.random_state = seed"),
+    ("C01", "unseeded-pool", "black_it/samplers/surrogate.py", "            random_state=self._get_random_seed(),\n        ).sample_batch(", "            random_state=None,\n        ).sample_batch("),
+    ("C01", "folder-draw", "black_it/calibrator.py", "                if self.saving_folder is not None:\n                    self.create_checkpoint(self.saving_folder)", "                if self.saving_folder is not None:\n                    self.create_checkpoint(self.saving_folder)\n                    self.scheduler.samplers[0].random_generator.random()"),
     ("C15", "no-tolerance", "black_it/search_space.py", "parameters_bounds[1][i] + 0.0000001,", "parameters_bounds[1][i],"),
 ]
 
